@@ -1,5 +1,7 @@
 import AvroModel.Impl.Ser
 import AvroModel.Impl.De
+import AvroModel.Impl.SchemaParse
+import AvroModel.Impl.SchemaRender
 /-
 Line protocol (DESIGN.md 4.2): whitespace-separated tokens in prefix notation with explicit
 counts; strings and byte strings are hex with an `x` prefix (`x` alone is the empty string).
@@ -279,6 +281,55 @@ def pBackend (bytes : Bytes → RState) : P (Bytes → RState) := do
     let maxAlloc ← pNat
     pure fun b => { bytes b with isSlice := false, lastChunk := last, sched := sched, maxAlloc := maxAlloc }
   | _ => throw s!"unknown backend {t}"
+
+partial def pJson : P Json := do
+  let t ← tok
+  match t with
+  | "jnull" => pure .null
+  | "jbool" => do pure (.bool ((← pNat) ≠ 0))
+  | "jnat" => do pure (.nat (← pNat))
+  | "jnum" => pure .numOther
+  | "jstr" => do pure (.str (← pStr))
+  | "jarr" => do pure (.arr (← pList pJson))
+  | "jobj" => do pure (.obj (← pList (do let k ← pStr; let v ← pJson; pure (k, v))))
+  | _ => throw s!"unknown json tag {t}"
+
+partial def jsonSize : Json → Nat
+  | .arr items => 1 + (items.map jsonSize).foldl (· + ·) 0
+  | .obj ms => 1 + (ms.map fun m => jsonSize m.2).foldl (· + ·) 0
+  | _ => 1
+
+partial def jsonToString : Json → String
+  | .null => "jnull"
+  | .bool b => s!"jbool {if b then 1 else 0}"
+  | .nat n => s!"jnat {n}"
+  | .numOther => "jnum"
+  | .str s => s!"jstr {strHex s}"
+  | .arr items => s!"jarr {items.length}" ++ String.join (items.map fun j => " " ++ jsonToString j)
+  | .obj ms => s!"jobj {ms.length}" ++ String.join (ms.map fun (k, v) => s!" {strHex k} " ++ jsonToString v)
+
+def logicalToString : Option LogicalType → String
+  | none => "-"
+  | some (.decimal s p) => s!"decimal {s} {p}"
+  | some .uuid => "uuid" | some .date => "date" | some .timeMillis => "time-millis"
+  | some .timeMicros => "time-micros" | some .timestampMillis => "timestamp-millis"
+  | some .timestampMicros => "timestamp-micros" | some .duration => "duration"
+  | some .bigDecimal => "big-decimal"
+  | some (.unknown n) => s!"unknown {strHex n}"
+
+def schemaMutToString (S : SchemaMut) : String :=
+  let node (n : RawNode) : String :=
+    (match n.type with
+      | .null => "null" | .boolean => "boolean" | .int => "int" | .long => "long"
+      | .float => "float" | .double => "double" | .bytes => "bytes" | .string => "string"
+      | .array i => s!"array {i}"
+      | .map v => s!"map {v}"
+      | .union vs => s!"union {vs.length}" ++ String.join (vs.map fun v => s!" {v}")
+      | .record nm fs => s!"record {strHex nm.fq} {fs.length}" ++ String.join (fs.map fun (f, k) => s!" {strHex f} {k}")
+      | .enum nm syms => s!"enum {strHex nm.fq} {syms.length}" ++ String.join (syms.map fun s => " " ++ strHex s)
+      | .fixed nm size => s!"fixed {strHex nm.fq} {size}")
+    ++ " " ++ logicalToString n.logical
+  s!"{S.size}" ++ String.join (S.toList.map fun n => " " ++ node n)
 
 def run {α} (p : P α) (toks : List String) : Except String (α × List String) := p.run toks
 
